@@ -307,6 +307,7 @@ class LogicalLinkController(object):
         self.sap = 64 * [None]
         self.sap[0] = ServiceAccessPoint(0, self)
         self.sap[1] = ServiceDiscovery(self)
+        self.terminated = False  # set when the link was terminated
 
     def __str__(self):
         local = "Local(MIU={miu}, LTO={lto}ms)".format(
@@ -322,6 +323,7 @@ class LogicalLinkController(object):
     def activate(self, mac, **options):
         assert isinstance(mac, (nfc.dep.Initiator, nfc.dep.Target))
         self.mac = None
+        self.terminated = False
 
         wks = 1 + sum([1 << sap for sap in self.snl.values() if sap < 15])
 
@@ -407,11 +409,13 @@ class LogicalLinkController(object):
                 self.mac.deactivate(data=bytearray(b"\x01\x40"))
         finally:
             # shutdown local services, also if the device is gone
-            for i in range(63, -1, -1):
-                if not self.sap[i] is None:
-                    log.debug("closing service access point %d" % i)
-                    self.sap[i].shutdown()
-                    self.sap[i] = None
+            with self.lock:
+                self.terminated = True  # no more sockets can be bound
+                for i in range(63, -1, -1):
+                    if not self.sap[i] is None:
+                        log.debug("closing service access point %d" % i)
+                        self.sap[i].shutdown()
+                        self.sap[i] = None
             self.link.SHUTDOWN = True
 
     def exchange(self, send_pdu, timeout):
@@ -750,6 +754,8 @@ class LogicalLinkController(object):
 
     def _bind_by_none(self, socket):
         with self.lock:
+            if self.terminated:
+                raise err.Error(errno.ESHUTDOWN)
             try:
                 addr = 32 + self.sap[32:64].index(None)
             except ValueError:
@@ -763,6 +769,8 @@ class LogicalLinkController(object):
         if addr < 0 or addr > 63:
             raise err.Error(errno.EFAULT)
         with self.lock:
+            if self.terminated:
+                raise err.Error(errno.ESHUTDOWN)
             if addr in range(32, 64) or isinstance(socket, tco.RawAccessPoint):
                 if self.sap[addr] is None:
                     socket.bind(addr)
@@ -778,6 +786,8 @@ class LogicalLinkController(object):
             raise err.Error(errno.EFAULT)
 
         with self.lock:
+            if self.terminated:
+                raise err.Error(errno.ESHUTDOWN)
             if self.snl.get(name) is not None:
                 raise err.Error(errno.EADDRINUSE)
             addr = wks_map.get(name)
